@@ -109,11 +109,7 @@ func (Prop) RunBatch(c *vp.Child) {
 		if !mine(c, i) {
 			continue
 		}
-		// -race builds: no coroutines.  A finished coroutine's goroutine still
-		// touches the context manager after handing control back (Thread.end,
-		// DESIGN section 8 #2, property C09) and every such report would be
-		// charged to C18, whose race clause is about Go's finaliser goroutine.
-		h := Generate(c.Seed, i, strings.HasSuffix(c.Stage, "-race"))
+		h := Generate(c.Seed, i, false)
 		runOne(c, h, 1)
 		c.Feature(fmt.Sprintf("histories-with-GOMAXPROCS=%d", procs), 1)
 		if k++; k%64 == 0 {
